@@ -44,6 +44,7 @@ class Recorder(object):
         self.labels = {}
         self.keep = []
         self.raised = {}      # seq -> [exception objects created by the harness]
+        self.created = {}     # seq -> [objects created by harness functions in that request]
         self.lock_free_counter = 0
 
     @property
@@ -61,6 +62,7 @@ class Recorder(object):
         self.keep.append(obj)
         lab = '%s#%d' % (hint, len(self.keep))
         self.labels[id(obj)] = lab
+        self.created.setdefault(self.seq, []).append(obj)
         return obj
 
     def label_of(self, obj):
